@@ -89,8 +89,10 @@ def base_list(cs, tier):
         return cs.Polyhedron(V, [list(f) for f in faces], faces_are_convex=False)
 
     B["Polyhedron"] = B["Polyhedron"] + [("U-voxel-noflag", nonconvex_flag)]
+    # the same chiral solid given in very small units (a 100 nm particle in metres): absolute guards must not bite
+    B["ConvexPolyhedron"] = B["ConvexPolyhedron"] + [("chiral7-nano", lambda: cs.ConvexPolyhedron(bases.convex_points("chiral7") * 1e-7))]
     if tier == "quick":
-        keep = {"ConvexPolyhedron": ["chiral7", "box"], "Polyhedron": ["chiral7", "U-voxel", "U-voxel-noflag", "box-triangulated"],
+        keep = {"ConvexPolyhedron": ["chiral7", "box", "chiral7-nano"], "Polyhedron": ["chiral7", "U-voxel", "U-voxel-noflag", "box-triangulated"],
                 "ConvexSpheropolyhedron": ["chiral7"], "Polygon": ["comb-ccw", "star-cw-tilted"], "ConvexPolygon": ["pentagon-tilted", "kite-xy"],
                 "ConvexSpheropolygon": ["quad-xy-r0.4"]}
         return {c: [(l, f) for (l, f) in B[c] if l in keep[c]] for c in CLASSES}
@@ -109,7 +111,7 @@ def plan(tier):
             full, red = alphabet(cs, cls), alphabet(cs, cls, reduced=True)
             for bi in range(len(BL[cname])):
                 out.append(("depth1", cname, bi, None))
-                d2 = BL[cname][:2] if tier == "quick" else BL[cname]
+                d2 = BL[cname][:2] if tier == "quick" else BL[cname]     # depth 2 on the first two bases in the quick tier
                 if bi < len(d2):
                     for ai in range(len(red)):
                         out.append(("depth2", cname, bi, ai))
@@ -183,7 +185,8 @@ def apply_op(obj, op):
                     cur = np.asarray(getattr(obj, name), float)
                 except (NotImplementedError, ImportError):
                     return "n/a", "not provided"
-                setattr(obj, name, cur + np.array([0.6, -1.1, 0.45]))
+                size, _ = fpr.length_scale(obj)
+                setattr(obj, name, cur + np.array([0.6, -1.1, 0.45]) * (size / 3.0))     # a move of the order of the shape's size
             elif kind == "read":
                 getattr(obj, name)
             else:
